@@ -47,6 +47,24 @@ class StubCluster:
         return set(range(self.ppt[i]))
 
 
+def make_cluster(case):
+    """the stub, or - when the case flags internal topics - the real ClusterMetadata filled from a Metadata reply
+    (a member may subscribe to an internal topic such as __consumer_offsets by name: topics() leaves those out
+    by default, partitions_for_topic() knows them)"""
+    if not case.get("internal"):
+        return StubCluster(case["ppt"])
+    from aiokafka.cluster import ClusterMetadata
+    from aiokafka.protocol.metadata import MetadataResponse_v1
+    c = ClusterMetadata()
+    topics = []
+    for i, n in enumerate(case["ppt"]):
+        if n is None:
+            continue
+        topics.append((0, S.tname(i), i in case["internal"], [(0, p, 0, [0], [0]) for p in range(n)]))
+    c.update_metadata(MetadataResponse_v1([(0, "h", 9092, None)], 0, topics))
+    return c
+
+
 def conv_out(case, out):
     """{member: ConsumerProtocolMemberAssignment} -> [[id, [[t, [p..]], ..]], ..] in the order of
     the returned dict."""
@@ -154,7 +172,7 @@ def run_sticky(case, with_log=True):
     _install()
     LOG = {"assigns": [], "reassigns": [], "scores": []} if with_log else None
     try:
-        out = StickyPartitionAssignor.assign(StubCluster(case["ppt"]), sticky_metadata(case))
+        out = StickyPartitionAssignor.assign(make_cluster(case), sticky_metadata(case))
         res = {"out": conv_out(case, out)}
         if with_log:
             sc = LOG["scores"]
@@ -173,7 +191,7 @@ def run_sticky(case, with_log=True):
 
 def run_plain(A, case):
     try:
-        return conv_out(case, A.assign(StubCluster(case["ppt"]), plain_metadata(case)))
+        return conv_out(case, A.assign(make_cluster(case), plain_metadata(case)))
     except Exception as e:  # noqa: BLE001
         return {"exc": f"{type(e).__name__}: {e!r}"[:300]}
 
